@@ -149,8 +149,13 @@ def run(res, tier, seed):
     engine_corr.js_leg(res, 'C05', cases, rnd=random.Random(seed + 109))
     direct_oracle(res, cases[:3000])
     partnerless_oracle(res, cases)
+    # the text-to-code step in front of the engine: the assignment list (Model/Translate.lean vs the real translate_update_expression)
+    import translate_corr
+    translate_corr.run_leg(res, tier, seed, {'update'})
     known_finding_witness(res)
 
 
 def replay(res, path):
-    return engine_corr.replay(res, path)
+    import translate_corr
+    r = translate_corr.replay(res, path)
+    return engine_corr.replay(res, path) if r is None else r
